@@ -78,7 +78,7 @@ Definition env_of (c : cli_case) : rev_env :=
 Definition model_rev (c : cli_case) : o_rev :=
   let P := cc_project c in
   match cmd_revision P (cc_message c) (cc_fills c) (env_of c) with
-  | Err _ | Ok RevRefused | Ok RevNeedsTty | Ok RevRefusedVersion | Ok RevRefusedExists => OR_err
+  | Err _ | Ok RevRefused | Ok RevNeedsTty | Ok RevRefusedVersion | Ok RevRefusedExists | Ok (RevRefusedInvalid _) => OR_err
   | Ok RevNothing => OR_nothing
   | Ok (RevWrote f p) => OR_wrote f p [] [f]
   end.
@@ -121,26 +121,6 @@ Fixpoint cli_mismatches_from (i : nat) (cs : list cli_case) : list (nat * list n
   end.
 
 (* ------------------------------------------------------------------ classifiers of known findings *)
-(* D8: `sql` prefixes the stored plans (hence its baseline) but not the models *)
-Definition known_C13_sql_prefix (P : project) : bool :=
-  (negb (String.eqb (pj_prefix P) "") && negb (is_nil (pj_migrations P)))%bool.
-
-(* a fill value given on the command line for a new enum column is written without being checked against the
-   enum's values; validate_migration_plan rejects the written file on the next load *)
-Definition bad_enum_fill (a : action) : bool :=
-  match a with
-  | AddColumn t c (Some f) =>
-      match c_type c with
-      | TEnum _ values => match validate_enum_value f values t (c_name c) with Ok _ => false | Err _ => true end
-      | _ => false
-      end
-  | _ => false
-  end.
-Definition known_C13_invalid_enum_fill (c : cli_case) : bool :=
-  match cmd_revision (cc_project c) (cc_message c) (cc_fills c) (env_of c) with
-  | Ok (RevWrote _ p) => existsb bad_enum_fill (p_actions p)
-  | _ => false
-  end.
-
-Definition classify_cli (c : cli_case) : list bool :=
-  [known_C13_sql_prefix (cc_project c); known_C13_invalid_enum_fill c].
+(* no open finding of this layer is left for C13 (D6, D7, D8, the overwrite, the version reuse and the unchecked enum
+   fill value were all repaired in /repo) *)
+Definition classify_cli (c : cli_case) : list bool := [].
